@@ -40,7 +40,10 @@ theorem negMux_sound (w : Nat) (b : B4) (A B : Option BV4) :
   cases b with
   | x =>
     apply RuleSound.of_eq
-    simp only [evalMux, BV4.allDef, List.all_cons, B4.isDef, List.all_nil, Bool.and_true, Bool.not_false, if_true]
+    -- a 1-bit selector may stand for at most 1 < 2 data inputs: the range test of the undefined-selector branch passes
+    have hr : ¬ (BV4.maxNat [B4.x] ≥ 2) := by decide
+    simp only [evalMux, BV4.allDef, List.all_cons, B4.isDef, List.all_nil, Bool.and_true, Bool.not_false, if_true,
+      List.length_cons, List.length_nil, hr, if_false]
     apply BV4.ext_bit (by simp)
     intro i hi
     rw [bit_tab, bit_tab, mergeBit_swap]
@@ -84,7 +87,7 @@ theorem evalMux_sel_f (w : Nat) (A D : Option BV4) : evalMux w [some [B4.f], A, 
   simp [evalMux, BV4.allDef, B4.isDef, BV4.toNat]
 
 theorem evalMux_sel_x (w : Nat) (A D : Option BV4) : evalMux w [some [B4.x], A, D] = tab w (mergeBit [A, D]) := by
-  simp [evalMux, BV4.allDef, B4.isDef]
+  simp [evalMux, BV4.allDef, B4.isDef, BV4.maxNat]
 
 theorem copyIn_of_length {w : Nat} {v : BV4} (h : v.length = w) : copyIn w (some v) = v := by subst h; exact copyIn_self v
 
